@@ -110,7 +110,7 @@ fn install_hook() {
     });
 }
 fn short_path(f: &str) -> String {
-    if let Some(i) = f.find("/src/") {
+    if let Some(i) = f.rfind("/src/") {
         // the crate under test: "src/..."; dependencies: "<crate dir>/src/..."
         let head = &f[..i];
         let krate = head.rsplit('/').next().unwrap_or("");
@@ -199,6 +199,10 @@ pub fn isolated(case: &str, run: fn(&str) -> Out) -> Result<Out, i32> {
     }
 }
 pub const F18: &str = "F18-commitment-slice-length";
+pub const F20: &str = "F20-blind-zero-value";
+pub const F21: &str = "F21-verify-zero-issuance";
+pub const F22: &str = "F22-surjection-inputs-abort";
+pub const F23: &str = "F23-rangeproof-full-range";
 /// input class of F18 at the PSET level: some input/output map carries a commitment-typed proprietary field
 /// (input: issuance value / inflation keys commitment; output: value / asset commitment) whose value is not 33 bytes long
 fn pset_short_commitment(b: &[u8]) -> bool {
@@ -222,7 +226,7 @@ fn pset_short_commitment(b: &[u8]) -> bool {
     false
 }
 fn crash_out(sig: i32, class: bool) -> Out {
-    Out { result: "crash".into(), pred_fail: Some(if class { format!("{}|the process was killed by signal {} while decoding a commitment field whose length is not 33 (PedersenCommitment/Generator::from_slice read through the slice pointer without a length check)", F18, sig) } else { format!("crash@signal{}|the process was killed by signal {}", sig, sig) }) }
+    Out { result: "total".into(), pred_fail: Some(if class { format!("{}|the process was killed by signal {} while decoding a commitment field whose length is not 33 (PedersenCommitment/Generator::from_slice read through the slice pointer without a length check)", F18, sig) } else { format!("crash@signal{}|the process was killed by signal {}", sig, sig) }) }
 }
 fn set_emergency(case: &str) {
     let line = format!("\n{}\tabort\talloc-limit|a single allocation request above 1 GiB: ", case);
@@ -350,6 +354,7 @@ fn eval_dec(w: &[&str]) -> Out {
         "nonce" => go::<confidential::Nonce>(&b, |v| { let _ = (v.explicit(), v.commitment(), v.is_null()); let _ = serialize(v); }),
         _ => return Out::ok("harnesserr type".into()),
     };
+    if std::env::var_os("C10_STATS").is_some() { eprintln!("STAT dec {} n={} total={} max={} bound={}", w[2], b.len(), obs.total, obs.maxreq, bound); }
     // the allocation bound is about decoding; accessors are covered by the panic predicate
     let dec_only = Obs { panics: obs.panics.clone(), ..obs.clone() };
     finish(format!("{} b={}", if ok { "ok" } else { "err" }, bound), &dec_only, None, Some(bound + dep_slack(b.len())))
@@ -368,7 +373,8 @@ fn rd_varint(b: &[u8]) -> Option<(u64, usize)> {
 }
 fn eval_lowlevel(kind: &str, w: &[&str]) -> Out {
     if w.len() != 4 { return Out::ok("harnesserr args".into()); }
-    let (Ok(maxvec), Some(b)) = (w[2].parse::<u64>(), unhex_dash(w[3])) else { return Out::ok("harnesserr fields".into()) };
+    let (Some((Ok(maxvec), Ok(szv))), Some(b)) = (w[2].split_once(',').map(|(a, b)| (a.parse::<u64>(), b.parse::<u64>())), unhex_dash(w[3])) else { return Out::ok("harnesserr fields".into()) };
+    if szv != std::mem::size_of::<Vec<u8>>() as u64 { return Out::ok("harnesserr size_of".into()); }
     let n = b.len();
     match kind {
         "varint" => {
@@ -386,7 +392,6 @@ fn eval_lowlevel(kind: &str, w: &[&str]) -> Out {
             out
         }
         "vecvec" => {
-            let szv = std::mem::size_of::<Vec<u8>>() as u64;
             // reservation: len*size_of<Vec<u8>> for the outer vector, then each element in turn while the input lasts
             let mut rsv = 0u64;
             if let Some((len, mut pos)) = rd_varint(&b) {
@@ -726,8 +731,8 @@ fn eval_minval(w: &[&str]) -> Out {
 // ---- PSET value decoders that slice by fixed offsets
 fn eval_psetval(w: &[&str]) -> Out {
     use pset::serialize::Deserialize;
-    if w.len() != 4 { return Out::ok("harnesserr args".into()); }
-    let Some(b) = unhex_dash(w[3]) else { return Out::ok("harnesserr hex".into()) };
+    if w.len() != 5 { return Out::ok("harnesserr args".into()); }
+    let Some(b) = unhex_dash(w[4]) else { return Out::ok("harnesserr hex".into()) };
     let n = b.len();
     let (r, obs) = guard(|| match w[2] {
         "scriptver" => match <(Script, elements::taproot::LeafVersion)>::deserialize(&b) { Ok((s, v)) => format!("ok {} {}", hexd(s.as_bytes()), v.as_u8()), Err(_) => "err".into() },
@@ -772,9 +777,33 @@ fn eval_tapidx(w: &[&str]) -> Out {
     finish(r.unwrap_or_else(|| "panic".into()), &obs, None, Some(1 << 20))
 }
 
+pub fn own_mode() -> &'static str {
+    use std::sync::OnceLock;
+    static ON: OnceLock<bool> = OnceLock::new();
+    if *ON.get_or_init(|| catch_unwind(|| { let x = std::hint::black_box(i64::MIN); std::hint::black_box(-x); }).is_err()) { "dbg" } else { "rel" }
+}
+pub const F19: &str = "F19-read-uint-size";
+// ---- script::read_uint with an arbitrary size
+fn eval_ruint(w: &[&str]) -> Out {
+    if w.len() != 5 { return Out::ok("harnesserr args".into()); }
+    if w[2] != own_mode() { return Out::ok("harnesserr profile: replay this case with the other harness binary".into()); }
+    let (Ok(size), Some(data)) = (w[3].parse::<usize>(), unhex_dash(w[4])) else { return Out::ok("harnesserr fields".into()) };
+    let (r, obs) = guard(|| elements::script::read_uint(&data, size));
+    let res = match &r { Some(Ok(n)) => format!("ok {}", n), Some(Err(_)) => "err early".into(), None => "panic".into() };
+    let class = size >= 9 && data.len() >= size;
+    let mut out = finish(res, &obs, if class { Some((F19, "src/script.rs", "with overflow")) } else { None }, Some(small_bound(data.len())));
+    // overflow checks off: shifts by 64 and more are masked and the sum wraps — a value is returned for bytes that do not fit a usize
+    if out.pred_fail.is_none() && class && matches!(r, Some(Ok(_))) {
+        out.pred_fail = Some(format!("{}|read_uint returned a value for {} bytes (shift amounts >= 64 are masked, the sum wraps)", F19, size));
+    }
+    out
+}
+
 // ---- fee sums
 fn eval_fees(w: &[&str]) -> Out {
-    if w.len() != 3 { return Out::ok("harnesserr args".into()); }
+    if w.len() != 4 { return Out::ok("harnesserr args".into()); }
+    if w[2] != own_mode() { return Out::ok("harnesserr profile: replay this case with the other harness binary".into()); }
+    let w = [w[0], w[1], w[3]];
     let mut outs = Vec::new();
     if w[2] != "-" { for it in w[2].split(',') { match it.split_once(':').and_then(|(a, v)| Some((a.parse::<u8>().ok()?, v.parse::<u64>().ok()?))) { Some((a, v)) => outs.push((a, v)), None => return Out::ok("harnesserr item".into()) } } }
     let tx = Transaction { version: 2, lock_time: LockTime::ZERO, input: vec![], output: outs.iter().map(|(a, v)| TxOut::new_fee(*v, asset(*a))).collect() };
@@ -898,6 +927,60 @@ fn eval_explore(kind: &str, w: &[&str]) -> Out {
             });
             finish("total".into(), &obs, None, None)
         }
+        "x-blindzero" => {
+            // N1/F20: a marked output of value 0 whose value blinding factor comes out as 0 (single zero-valued, unblinded input)
+            if w.len() != 3 { return Out::ok("harnesserr args".into()); }
+            let Ok(v) = w[2].parse::<u64>() else { return Out::ok("harnesserr value".into()) };
+            let secp = zkp::SECP256K1;
+            let pk = zkp::PublicKey::from_secret_key(secp, &zkp::SecretKey::from_slice(&[7u8; 32]).unwrap());
+            let mut o = TxOut::new_fee(v, asset(3));
+            o.script_pubkey = Script::from({ let mut s = vec![0x00, 0x14]; s.extend([9u8; 20]); s });
+            o.nonce = confidential::Nonce::Confidential(pk);
+            let mut tx = Transaction { version: 2, lock_time: LockTime::ZERO, input: vec![{ let mut i = TxIn::default(); i.previous_output = OutPoint::new(txid(9), 0); i }], output: vec![o] };
+            let sec = elements::TxOutSecrets::new(asset(3), confidential::AssetBlindingFactor::zero(), v, confidential::ValueBlindingFactor::zero());
+            let (_, obs) = guard(|| { let mut rng = <ChaCha20Rng as rand::SeedableRng>::from_seed([5u8; 32]); let _ = tx.blind(&mut rng, secp, &[sec], false); });
+            finish("total".into(), &obs, if v == 0 { Some((F20, "secp256k1-zkp", "failed to create pedersen commitment")) } else { None }, None)
+        }
+        "x-verify" => {
+            // N2/F21: verify_tx_amt_proofs on a decoded transaction with explicit utxos
+            if w.len() != 3 { return Out::ok("harnesserr args".into()); }
+            let Some(tb) = unhex_dash(w[2]) else { return Out::ok("harnesserr hex".into()) };
+            let Ok(tx) = deserialize::<Transaction>(&tb) else { return Out::ok("total".into()) };
+            let utxos: Vec<TxOut> = tx.input.iter().enumerate().map(|(k, _)| { let mut o = TxOut::new_fee(1000 + k as u64, asset(3)); o.script_pubkey = Script::from(vec![0x51]); o }).collect();
+            let zero_iss = tx.input.iter().any(|i| i.has_issuance() && (i.asset_issuance.amount == confidential::Value::Explicit(0) || i.asset_issuance.inflation_keys == confidential::Value::Explicit(0)));
+            let (_, obs) = guard(|| { let _ = tx.verify_tx_amt_proofs(zkp::SECP256K1, &utxos); });
+            finish("total".into(), &obs, if zero_iss { Some((F21, "secp256k1-zkp", "failed to create pedersen commitment")) } else { None }, None)
+        }
+        "x-surj" => {
+            // N3/F22: more than 256 surjection inputs make libsecp256k1-zkp's illegal-argument callback abort the process
+            if w.len() != 3 { return Out::ok("harnesserr args".into()); }
+            let Ok(n) = w[2].parse::<usize>() else { return Out::ok("harnesserr count".into()) };
+            if n > 400 { return Out::ok("harnesserr count".into()); }
+            let utxo = elements::TxOutSecrets::new(asset(3), confidential::AssetBlindingFactor::zero(), 10, confidential::ValueBlindingFactor::zero());
+            let (_, obs) = guard(|| {
+                let mut rng = <ChaCha20Rng as rand::SeedableRng>::from_seed([5u8; 32]);
+                let _ = confidential::Asset::Explicit(asset(3)).blind(&mut rng, zkp::SECP256K1, confidential::AssetBlindingFactor::from_slice(&[2u8; 32]).unwrap(), &vec![utxo; n]);
+            });
+            finish("total".into(), &obs, None, None)
+        }
+        "x-rp64" => {
+            // N4/F23: a range proof covering [0, 2^64-1]; secp256k1-zkp computes `max_value + 1` (overflow checks on: panic)
+            if w.len() != 2 { return Out::ok("harnesserr args".into()); }
+            let secp = zkp::SECP256K1;
+            let abf = confidential::AssetBlindingFactor::from_slice(&[2u8; 32]).unwrap(); let vbf = confidential::ValueBlindingFactor::from_slice(&[3u8; 32]).unwrap();
+            let gen = zkp::Generator::new_blinded(secp, asset(3).into_tag(), abf.into_inner());
+            let commit = zkp::PedersenCommitment::new(secp, 5, vbf.into_inner(), gen);
+            let recv_sk = zkp::SecretKey::from_slice(&[4u8; 32]).unwrap();
+            let (nonce, shared) = confidential::Nonce::with_ephemeral_sk(secp, zkp::SecretKey::from_slice(&[5u8; 32]).unwrap(), &zkp::PublicKey::from_secret_key(secp, &recv_sk));
+            let spk = Script::from({ let mut s = vec![0x00, 0x14]; s.extend([9u8; 20]); s });
+            let msg = elements::RangeProofMessage::new(asset(3), abf).to_byte_array();
+            let Ok(rp) = zkp::RangeProof::new(secp, 0, commit, 5, vbf.into_inner(), &msg, spk.as_bytes(), shared, 0, 64, gen) else { return Out::ok("harnesserr proof".into()) };
+            let out = TxOut { asset: confidential::Asset::Confidential(gen), value: confidential::Value::Confidential(commit), nonce, script_pubkey: spk, witness: elements::TxOutWitness { surjection_proof: None, rangeproof: Some(Box::new(rp)) } };
+            // the proof survives the wire
+            let Ok(out) = deserialize::<TxOut>(&serialize(&out)).map(|mut o: TxOut| { o.witness = out.witness.clone(); o }) else { return Out::ok("harnesserr wire".into()) };
+            let (_, obs) = guard(|| { let _ = out.unblind(secp, recv_sk); });
+            finish("total".into(), &obs, Some((F23, "secp256k1-zkp", "attempt to add with overflow")), None)
+        }
         "x-text" => {
             if w.len() != 3 { return Out::ok("harnesserr args".into()); }
             let Some(s) = unhex_dash(w[2]).and_then(|b| String::from_utf8(b).ok()) else { return Out::ok("harnesserr utf8".into()) };
@@ -957,6 +1040,7 @@ pub fn eval(case: &str) -> Out {
         "psetval" => eval_psetval(&w),
         "tapidx" => eval_tapidx(&w),
         "fees" => eval_fees(&w),
+        "ruint" => eval_ruint(&w),
         "commit" => eval_commit(&w),
         k if k.starts_with("x-") => {
             // PSET decoding can crash the process (F18): evaluate in a child
@@ -965,6 +1049,8 @@ pub fn eval(case: &str) -> Out {
                 std::str::from_utf8(&raw).ok().and_then(|t| BASE64_STANDARD.decode(t).ok()).map(|d| pset_short_commitment(&d)).unwrap_or(false) } });
             match isolated(case, eval_explore_case) {
                 Ok(mut o) => { if class && o.pred_fail.is_none() && o.result == "total+" { o.pred_fail = Some(format!("{}|a PSET whose commitment field is not 33 bytes long was accepted (the bytes behind the slice were read)", F18)); } if o.result == "total+" { o.result = "total".into(); } o }
+                Err(sig) if k == "x-surj" && sig == 6 && w.get(2).and_then(|n| n.parse::<usize>().ok()).map(|n| n > 256).unwrap_or(false) =>
+                    Out { result: "total".into(), pred_fail: Some(format!("{}|the process was aborted (signal 6) by libsecp256k1-zkp's illegal-argument callback: more than 256 surjection inputs reach SurjectionProof::new unchecked", F22)) },
                 Err(sig) => crash_out(sig, class),
             }
         }
